@@ -361,7 +361,7 @@ class YP(object):
             name = term._name
             args = term._args
         elif isinstance(term, Atom):
-            name = term
+            name = term._name
             args = []
 
         remaining_clauses = self._predicates_store.get((name, len(args)), [])[:]
@@ -383,7 +383,7 @@ class YP(object):
             name = term._name
             args = term._args
         elif isinstance(term, Atom):
-            name = term
+            name = term._name
             args = []
         remaining_clauses = []
         for clause in self._predicates_store.get((name, len(args)), []):
